@@ -106,6 +106,9 @@ func (p *Program) Shape() string {
 	s := p.Store.Backend + "|" + p.Store.DropPolicy
 	for _, st := range p.Steps {
 		s += "," + st.Op
+		if st.Op == "mcpgate" || st.Op == "mcpapply" {
+			s += fmt.Sprintf("(%s,%v,%d,%q)", st.Route, st.Pad, st.Batch, st.Reason)
+		}
 		if st.Op == "filecase" {
 			s += fmt.Sprintf("(%s,%s,%d,%v)", st.Route, st.Reason, st.Batch, st.Pad)
 		}
